@@ -692,6 +692,17 @@ def spec_features(spec):
         f.append('conn')
     if spec.get('constraints'):
         f.append('choice-constraint')
+        # a linked group that is only partially active in some admissible architecture (a member is active while
+        # another member is not)
+        from simkit.ref_sem import Spec
+        try:
+            archs = Spec(spec).enumerate(limit=5000)
+        except OverflowError:
+            archs = []
+        for kind, cids in spec['constraints']:
+            if kind == 'linked' and any(0 < sum(1 for c in cids if c in a) < len(cids) for _, a in archs):
+                f.append('linked-group-partially-active')
+                break
     incs = {tuple(sorted(p)) for p in spec.get('incompat', [])}
     if incs:
         allopts = {o for c in spec['sel'] for o in c[2]}
